@@ -91,7 +91,11 @@ class SubsetGen:
             consts.append(i)
             seq.append("%x/%x/%x/%s" % (opc, rt, i, text))
             return i
-        c1 = const("L%x" % r.randrange(1 << 32), 0x2b, t_int)
+        v1 = "L%x" % r.randrange(1 << 32)
+        c1 = const(v1, 0x2b, t_int)
+        if r.random() < 0.5:
+            const(v1, 0x2b, t_int)           # an equal constant declared twice is two constants
+            const("-", 0x29, t_bool)
         c2 = const("L%x" % r.randrange(1 << 32), 0x2b, t_uint)
         c3 = const("L%x" % r.choice([0x3f800000, 0x40490fdb, 0, 0x80000000, 0x7f7fffff]), 0x2b, t_float)
         c4 = const("-", 0x29, t_bool)
